@@ -29,6 +29,7 @@ LEAVES = [
     B(ret=['ok']), B(ret=['continue']), B(ret=['fail']), B(ret=['skip']), B(ret=['stop']), B(ret=['fail_subtest']),
     B(ret=['raise']), B(ret=['raise_f']), B(ret=['bad']), B(ret=['bad0']), B(ret=['hang']), B(ret=['sysexit']),
     B(ret=['ok'], meas='pass'), B(ret=['ok'], meas='fail'), B(ret=['ok'], meas='unset'), B(ret=['ok'], meas='marg'), B(ret=['ok'], meas='nocopy'),
+    B(ret=['ok'], meas='dimunset'), B(ret=['ok'], meas='dimset'), B(ret=['ok'], diag=['AFlist']),
     B(ret=['ok'], diag=['A']), B(ret=['ok'], diag=['iA']), B(ret=['ok'], diag=['FA']), B(ret=['ok'], diag=['raise']), B(ret=['ok'], diag=['raise', 'FA']),
     B(ret=['repeat', 'ok']), B(ret=['repeat', 'repeat', 'repeat']), B(ret=['repeat', 'fail']), B(ret=['repeat', 'skip']),
     B(ret=['repeat', 'ok'], opts={'repeat_limit': 1}),
